@@ -1,9 +1,13 @@
 (* Oracle tables supplied with each command: third-party verdicts computed by the harness
    from the real libraries for the strings that occur in the case.
+   The version verdicts (orc_version, orc_const) consult the table only for strings that are
+   NOT dotted numeric, i.e. not of the form  [0-9]+(\.[0-9]+)*  : on dotted numeric strings they are computed by the
+   exact model of awesomeversion's comparison in Base/Version.v (the table entry, still
+   supplied by the harness, is ignored there).
    Tokens after a "|" token:   V <str> <is_version ok 0/1> <get_const index 0..4>
                                F <str> <e|n|p|m|v> <num> <den>          (float(str)) *)
 From Coq Require Import List NArith ZArith QArith Bool String.
-From PMS Require Import Base.PyStr Base.PyInt Model.Codec Model.Rules Model.ShellBase.
+From PMS Require Import Base.PyStr Base.PyInt Base.Version Model.Codec Model.Rules Model.ShellBase.
 Import ListNotations.
 
 Record oracles := mkOracles {
@@ -18,10 +22,14 @@ Fixpoint plookup {A} (k : pstr) (l : list (pstr * A)) : option A :=
   | (k', a) :: r => if pstr_eqb k k' then Some a else plookup k r
   end.
 
+(* validation.is_version(s) returns (does not raise Invalid) *)
 Definition orc_version (o : oracles) (s : pstr) : bool :=
-  match plookup s (o_ver o) with Some (b, _) => b | None => false end.
+  if dotted_numeric s then ver_ge14 s
+  else match plookup s (o_ver o) with Some (b, _) => b | None => false end.
+(* index in [const_14; const_15; const_20; const_21; const_22] of get_const(safe_is_version(s)) *)
 Definition orc_const (o : oracles) (s : pstr) : nat :=
-  match plookup s (o_ver o) with Some (_, i) => i | None => 0%nat end.
+  if dotted_numeric s then const_index s
+  else match plookup s (o_ver o) with Some (_, i) => i | None => 0%nat end.
 Definition orc_float (o : oracles) (s : pstr) : fres :=
   match plookup s (o_float o) with Some f => f | None => FErr end.
 
